@@ -557,6 +557,17 @@ func (e *Engine) compareInt(p *Path, op token.Token, l, r *Int) Value {
 		return &Bool{Pred: pr}
 	}
 	// ordering
+	if l.Signed && len(l.Bits) > 0 {
+		// comparison of a signed value with 0 is decided by a known sign bit
+		if c, ok := r.Const(); ok && c == 0 {
+			switch sb := l.Bits[len(l.Bits)-1]; {
+			case sb.K == B1:
+				return mk(op == token.LSS || op == token.LEQ)
+			case sb.K == B0 && (op == token.LSS || op == token.GEQ):
+				return mk(op == token.GEQ)
+			}
+		}
+	}
 	if l.Lin == nil || r.Lin == nil {
 		// unsigned bit-vector ordering against a constant when high bits decide
 		if c, ok := r.Const(); ok && !l.Signed {
